@@ -68,8 +68,8 @@ def _finish(prop, tier, seed, res, skipped, rule, bound, assumptions, extra_cov=
             if shown < 12:
                 lane = v.get("lane", 0)
                 ins = [x[lane] if isinstance(x, list) and len(x) > lane else x for x in v.get("in", [])]
-                print("VIOLATION property=%s replay=%s  # %s<%s> on %s param=%s lane=%s in=%s expected=%s observed=%s" % (
-                    prop, path, v["op"], v["type"], v["arch"], v.get("param"), lane, ",".join(map(str, ins)), v.get("expected"), v.get("observed")))
+                print("VIOLATION property=%s replay=%s  # %s<%s> on %s param=%s lane=%s in=%s expected=%s observed=%s %s" % (
+                    prop, path, v["op"], v["type"], v["arch"], v.get("param"), lane, ",".join(map(str, ins)), v.get("expected"), v.get("observed"), str(v.get("note", ""))[:160]))
             shown += 1
         if shown == 0:
             print("VIOLATION property=%s replay=%s" % (prop, vlib.write_replay(prop, 0, {"note": "violations counted but none recorded", "by_key": res.get("by_key")})))
@@ -332,6 +332,55 @@ class MathPart:
         return self.mc.replay(prop, path)
 
 
+class CpuidCheck:
+    def build(self, seed, tier):
+        gen = subprocess.run([sys.executable, os.path.join(vlib.VERIF, "gen", "gen_dispatch.py"), str(seed), "64" if tier == "quick" else "256"], stdout=subprocess.PIPE, text=True).stdout
+        hp = os.path.join(vlib.BUILD, "gen", "dispatch_lists.%s.h" % tier)
+        vlib.write_if_changed(hp, gen)
+        target, (ok, log) = vlib.build_exe("xvcpuid." + tier, os.path.join(vlib.VERIF, "harness", "h_cpuid.cpp"), flags=["-msse2", '-DXV_DISPATCH_LISTS="%s"' % hp], libs=["-lpthread"], opt="-O0")
+        if not ok:
+            sys.stderr.write(log[-4000:])
+            print("[vcheck] C15: the CPUID harness does not compile against the current tree")
+            sys.exit(2)
+        return target
+
+    def run(self, prop, tier, seed):
+        t0 = time.time()
+        exe = self.build(seed, tier)
+        os.makedirs(vlib.OUT, exist_ok=True)
+        out = os.path.join(vlib.OUT, "%s.%s.result.json" % (prop, tier))
+        known = ",".join(f["id"] for f in vlib.open_findings(prop))
+        cmd = [exe, "--out", out, "--tier", tier, "--seed", str(seed)] + (["--known", known] if known else [])
+        if subprocess.run(cmd).returncode != 0:
+            print("[vcheck] explorer failed")
+            return 2
+        res = json.load(open(out))
+        res["wall_s"] = time.time() - t0
+        rule = ("detection: every combination of the 20 CPUID feature bits the detector reads x the 5 OS states hardware can present is injected through the XSIMD_VERIF_CPUID / XSIMD_VERIF_XGETBV hook "
+                "and the 23 availability flags are compared with the decision model of the property (own feature bits, OS-enabled register state, no XGETBV without OSXSAVE, monotone on chain-closed configurations); "
+                "dispatch: every generated architecture list is one program, executed under every availability vector (<= 4 members) or first-available-at-position-p x {alone, with the rest}; "
+                "states = configurations + (list, configuration) pairs; transitions = availability flags judged + dispatch calls")
+        bound = "2^20 x 5 = 5 242 880 configurations (exhaustive); %d architecture lists: all 276 sub-lists of length <= 2, all contiguous windows of the default list, reversed pairs, the full list, %s seed sub-lists" % (res.get("dispatch_programs", 0), "64" if tier == "quick" else "256")
+        assumptions = ["the hook replaces only the cpuid/xgetbv primitives; the decoding logic judged is the library's own",
+                       "hardware-presentable OS states: XCR0[2] implies XCR0[1], XCR0[7:5] all-or-none and only with XCR0[2], XCR0 readable only with OSXSAVE"]
+        return _finish(prop, tier, seed, res, [], rule, bound, assumptions, {"detection_configurations": res.get("detection_configurations"), "dispatch_programs": res.get("dispatch_programs"), "dispatch_calls": res.get("dispatch_calls")}, replay_kind="cpuid")
+
+    def replay(self, prop, path):
+        v = json.load(open(path))
+        c = v.get("config")
+        if not c:
+            print("[vcheck] nothing to replay")
+            return 2
+        exe = self.build(vlib.tier_and_seed()[1], "quick")
+        arg = ",".join(str(c[k]).replace("0x", "") for k in ("leaf1_ecx", "leaf1_edx", "leaf7_ebx", "leaf7_ecx", "leaf7_1_eax", "leaf80000001_ecx", "xcr0"))
+        p = subprocess.run([exe, "--replay-config", arg], stdout=subprocess.PIPE, text=True)
+        sys.stdout.write(p.stdout)
+        if p.returncode == 1:
+            print("VIOLATION property=%s replay=%s" % (prop, path))
+            return 1
+        return 0 if p.returncode == 0 else 2
+
+
 RULE_MATH = ("every point of the stated argument space is evaluated twice, once among neighbouring arguments and once in a strided order where "
              "the lanes of one batch come from 16 distant parts of the space, by every architecture's real kernel; each lane result is judged "
              "against the exact value (ulp bound inside the normal range, graceful-degradation predicate outside); states = arguments x orders; "
@@ -382,6 +431,7 @@ CHECKS = {
     "C14": MathCheck("float,double", RULE_MATH + "; for C14 the judged quantity is the number of iterations of the data-dependent loops of one call (hook XSIMD_VERIF_LOOP_TICK) against the frozen constants of DESIGN.md 8.3, a call is aborted and reported after 1000 iterations, and a watchdog reports any kernel call that does not return within 30 s", {
         "quick": "the C10 and C11 quick argument spaces of every elementary function, both stream orders (so that lanes of very different magnitude share a batch), all 22 architectures",
         "thorough": "all 2^32 float32 arguments of every unary function and the C11 thorough lattice"}, extra_args=["--ticks"]),
+    "C15": CpuidCheck(),
     "C17": Elementwise(["scalar"], RULE_EW + "; the scalar overloads are run one element per call and judged by the same reference models as the batch lanes (so scalar == batch wherever the model is single-valued); NaN operands are outside the property", {
         "quick": "the C01/C02/C03/C06/C07/C08 operand spaces (8-bit pairs exhaustive, ALL16 x L16, lattices^2, every shift/rotate count, fp lattices, rounding windows) for add, sub, mul, div, mod, neg, abs, min, max, sadd, ssub, avg, avgr, incr/decr(_if), bitwise operators, shifts, rotates, comparisons, select, is_flint/is_even/is_odd, fma family, nearbyint_as_int, bitwise_cast, clip, pow with 21 integer exponents (scalar and batch forms against the shared square-and-multiply model); all 22 architectures' compile flags",
         "thorough": "as quick with the thorough spaces of the underlying properties"}),
@@ -391,14 +441,28 @@ CHECKS = {
 def setup_all():
     """MANIFEST.setup_cmd: build every harness object and explorer once so that quick checks start warm."""
     run, skipped = vlib.runnable_archs()
-    done = set()
-    rc = 0
+    tier, seed = vlib.tier_and_seed("quick")
     for prop, chk in CHECKS.items():
-        if isinstance(chk, Elementwise):
-            key = tuple(chk.harnesses)
-            if key in done:
-                continue
-            done.add(key)
+        t0 = time.time()
+        if isinstance(chk, (Elementwise, MathCheck)):
             chk.build(prop)
+        elif isinstance(chk, Composite):
+            for label, part in chk.parts:
+                if isinstance(part, MathPart):
+                    part.mc.build(prop)
+                elif isinstance(part, DrivePart):
+                    for h in part.harnesses:
+                        if h in part.probed:
+                            vlib.build_modules_probed(h, run)
+                        else:
+                            vlib.build_modules(h, run)
+                    vlib.build_driver("xvdrive")
+        elif hasattr(chk, "build"):
+            try:
+                chk.build(seed, "quick")
+            except TypeError:
+                chk.build()
+        print("[setup] %s ready (%.0f s)" % (prop, time.time() - t0))
+        sys.stdout.flush()
     print("[setup] built for architectures: %s; skipped (not runnable here): %s" % (",".join(run), ",".join(skipped) or "-"))
-    return rc
+    return 0
